@@ -3,6 +3,11 @@
      (1 mode fixed bs n fs sched)     -> script_run from fs: (fs' log)
      (2 mode bs n)                    -> crash_free: list of ((i j) pdir)
      (3 fs)                           -> completed: list of ((i j) pdir)
+     (4 mode fixed bs n fs sched)     -> script_session from fs: (fs' (invocation ...)),
+                                         invocation = (screen (logitem ...) end), end = 0 returned |
+                                         1 did not return | 2 schedule exhausted; inside an invocation
+                                         record the operator's screen is written (0 r), r = the index of
+                                         the screen file that invocation was given (in fs' it stays (0))
    Encodings: kind = 0..6 (training test thetas dist selected advanced meta);
    spath = (0) | (1 i j kind); launch = (0 sp) | (1 sp sp) | (2 sp) | (3 sp (i j) excl);
    pdir = (training? test thetas dist selected? advanced? meta? by?);
@@ -82,6 +87,26 @@ Definition of_logitem (g : logitem) : sexp :=
   | GLaunch s l ps ok => SL [SZ 4; SZ (fst s); SZ (snd s); of_launch l; of_list of_kind ps; of_bool ok]
   end.
 
+(* the same with the operator screen of the invocation made explicit *)
+Definition of_spath_r (r : Z) (p : spath) : sexp :=
+  match p with SInput => SL [SZ 0; SZ r] | SFile _ _ => of_spath p end.
+Definition of_launch_r (r : Z) (l : launch) : sexp :=
+  match l with
+  | LInit a => SL [SZ 0; of_spath_r r a]
+  | LFirst a b => SL [SZ 1; of_spath_r r a; of_spath_r r b]
+  | LProsp a => SL [SZ 2; of_spath_r r a]
+  | LNext a t x => SL [SZ 3; of_spath_r r a; of_step t; of_Zs x]
+  end.
+Definition of_logitem_r (r : Z) (g : logitem) : sexp :=
+  match g with
+  | GLaunch s l ps ok => SL [SZ 4; SZ (fst s); SZ (snd s); of_launch_r r l; of_list of_kind ps; of_bool ok]
+  | _ => of_logitem g
+  end.
+Definition of_iend (e : iend) : sexp :=
+  SZ (match e with IReturned => 0 | IRaised => 1 | IExhausted => 2 end).
+Definition of_irec (r : irec) : sexp :=
+  SL [SZ (i_screen r); of_list (of_logitem_r (i_screen r)) (i_calls r); of_iend (i_end r)].
+
 Definition as_mode (s : sexp) : option mode :=
   match s with SZ 0 => Some Retro | SZ 1 => Some Prosp | _ => None end.
 
@@ -104,6 +129,13 @@ Definition run_c19 (orc : oracle) (s : sexp) : sexp :=
       | Some md, Some fx, Some bs, Some n, Some f, Some sched =>
           let '(f', log) := script_run md fx bs n f sched in
           SL [of_fs f'; of_list of_logitem log]
+      | _, _, _, _, _, _ => bad_input
+      end
+  | SL [SZ 4; md; fx; bs; n; f; sched] =>
+      match as_mode md, as_bool fx, as_Z bs, as_nat n, as_fs f, as_listof as_entry sched with
+      | Some md, Some fx, Some bs, Some n, Some f, Some sched =>
+          let '(f', recs) := script_session md fx bs n f sched in
+          SL [of_fs f'; of_list of_irec recs]
       | _, _, _, _, _, _ => bad_input
       end
   | SL [SZ 2; md; bs; n] =>
